@@ -1194,7 +1194,7 @@ def fusion_stream(ctx):
                         if rng.random() < (0.25 if quick else 1.0):
                             cases.append((n, h))
         # three levels (sampled): the third binder re-uses a pool name freed by a Contraction's extra factor
-        for _ in range(150 if quick else 1500):
+        for _ in range(150 if quick else 800):
             a, b = rng.sample(POOL, 2)
             f = ("binary", "mul", ("binary", "mul", x, ("rget", "z", a)), ("rget", "w", b))
             cur = f
@@ -1621,7 +1621,7 @@ def correspond(ctx):
                 (3 if quick else 4))
     enum_stream(ctx)
     fusion_stream(ctx)
-    clean_stream(ctx, 1000 if quick else 12000)
+    clean_stream(ctx, 1000 if quick else 6000)
     extras_stream(ctx, 80 if quick else 600)
     for name, fid, stream in (("shared-binder", KF, shared_binder_stream), ("approximate", KF2, approximate_stream)):
         try:
